@@ -739,6 +739,12 @@ def run(rep, tier):
     rep.floor("network family switches", c18_audit.network_family_rule(rep, unu), 1)
     rep.floor("inet_ntop capacity arguments", c18_audit.socklen_rule(rep, usa), 1)
     rep.floor("first-byte guards of the port split", c18_audit.unix_no_split_rule(rep, usa), 2)
+    # compile witness: every library function the two files call is declared (gcc >= 14 / clang >= 16 reject an implicit
+    # declaration; the older compilers of this image only warn)
+    for lab_, ok_, err_ in driver.syntax_only([common.src_unit(SA, "c18:decl:" + SA, cflags=("-Werror=implicit-function-declaration",)),
+                                               common.src_unit(NU, "c18:decl:" + NU, cflags=("-Werror=implicit-function-declaration",))]):
+        (rep.proved if ok_ else rep.violated)("R-CFGX", "", lab_, "every function called is declared (no implicit declaration)", "" if ok_ else err_[-300:],
+                                              file=SA if SA in lab_ else NU, unit=lab_)
     rep.floor("network texts with blanks", c18_audit.net_blank_rule(rep, unu), 5)
     nwf = nacc = 0
     for lab, u in us.items():
